@@ -47,6 +47,7 @@ class TlcResult:
         self.stdout = ""
         self.wall = 0.0
         self.diameter = None
+        self.rejected = []         # (trace index, matched, total) printed by a trace spec's postcondition
 
 
 _REPLAY_RE = re.compile(r'^<<"REPLAY", (".*")>>\s*$')
@@ -73,6 +74,9 @@ def parse_tlc(out, res):
         m = re.search(r'The depth of the complete state graph search is (\d+)', line)
         if m:
             res.diameter = int(m.group(1))
+        m = re.match(r'^<<"REJECTED", (\d+), (\d+), (\d+)>>', line)
+        if m:
+            res.rejected.append((int(m.group(1)), int(m.group(2)), int(m.group(3))))
         m = _COV_RE.match(line)
         if m:
             res.coverage[m.group(1)] = [int(m.group(3)), int(m.group(4))]
@@ -111,7 +115,17 @@ def tlc(module, cfg, metadir, workers=8, timeout=600, simulate=None, depth=None,
             cmd += ["-seed", str(seed)]
     if extra:
         cmd += extra
-    cmd += ["-config", os.path.join(SPEC, cfg), os.path.join(SPEC, module + ".tla")]
+    cfg_path = cfg if os.path.isabs(cfg) else os.path.join(SPEC, cfg)
+    if os.path.isabs(cfg):
+        # a generated cfg lives next to a copy of the specs (TLC resolves modules relative to the spec file)
+        spec_dir = os.path.dirname(cfg)
+        for fn in os.listdir(SPEC):
+            if fn.endswith(".tla"):
+                shutil.copy(os.path.join(SPEC, fn), os.path.join(spec_dir, fn))
+        spec_path = os.path.join(spec_dir, module + ".tla")
+    else:
+        spec_path = os.path.join(SPEC, module + ".tla")
+    cmd += ["-config", cfg_path, spec_path]
     e = dict(os.environ)
     if env:
         e.update(env)
@@ -248,7 +262,7 @@ class Ctx:
         return res
 
     def trace_check(self, module, cfg, trace_path, **kw):
-        md = os.path.join(self.work, "trace_" + cfg.replace(".cfg", ""))
+        md = os.path.join(self.work, "trace_" + os.path.basename(cfg).replace(".cfg", ""))
         res = tlc_trace(module, cfg, trace_path, md, **kw)
         self.transitions += res.generated
         return res
